@@ -153,3 +153,13 @@ Proof.
   rewrite L, Pa. assert (E : (a =? v) = false) by lia. rewrite E.
   rewrite !in_app_iff. right. right. right. left. reflexivity.
 Qed.
+
+Lemma tol_base_nonneg ts n d : 0 <= ts -> 0 < n -> 0 < d -> 0 <= tol_base ts n d.
+Proof. intros Ht Hn Hd. unfold tol_base. apply Z.div_pos; [apply Z.mul_nonneg_nonneg; lia | exact Hn]. Qed.
+Lemma tol_nonneg_template ts n d idx a : 0 <= ts -> 0 < n -> 0 < d -> 0 <= tol_template ts n d idx a.
+Proof.
+  intros Ht Hn Hd. unfold tol_template. pose proof (tol_base_nonneg ts n d Ht Hn Hd) as Hq.
+  destruct (idx =? 0); [lia|]. destruct a; [apply Z.div_pos; lia | exact Hq].
+Qed.
+Lemma tol_nonneg_timeline ts n d a : 0 <= ts -> 0 < n -> 0 < d -> 0 <= tol_timeline ts n d a.
+Proof. intros Ht Hn Hd. unfold tol_timeline. destruct a; [apply Z.div_pos; lia | apply tol_base_nonneg; assumption]. Qed.
